@@ -21,6 +21,19 @@ def R(mod, name, cfg="rc"):
 
 
 PROPS = {
+    "C19": dict(
+        rules=[R("memory", "rule_build_diff", "arc"), R("memory", "rule_sibling_api", "arc"),
+               R("memory", "rule_atomic", "arc"), R("borrow", "rule_borrow_arc", "arc")],
+        clause="The two runtimes are the same program outside the pointer/cell module: every shared function has the same "
+               "callee multiset, branch count and arity in the rc and the arc build modulo the Rc/Arc, RefCell/RwLock "
+               "renaming (R-BUILD-DIFF), and ptr_impl::{rc,arc} are siblings with non-blocking try_* variants "
+               "(R-SIBLING-API); no operation re-acquires a lock it holds (self-deadlock under RwLock, R-BORROW on the arc "
+               "build); no single container operation establishes a fact under one lock acquisition and acts on it under "
+               "another (R-ATOMIC). Not decided: linearizability, lost-update freedom in general, behaviour of operations "
+               "that run user callbacks.",
+        technique="cross-configuration fact diff (two cargo feature sets) + guard live-range / lock re-acquisition "
+                  "analysis on the arc build",
+    ),
     "C17": dict(
         rules=[R("dispatch", "rule_metakey_tables"), R("dispatch", "rule_dispatch_refs"), R("dispatch", "rule_dispatch_order"),
                R("dispatch", "rule_obj_defaults"), R("dispatch", "rule_dispatch_operands"), R("arith", "rule_rem_zero")],
@@ -182,5 +195,4 @@ NOT_APPLICABLE = {
     "C09": "every clause constrains numeric cursor values computed from the input's characters; no structural "
            "necessary condition exists (DESIGN.md section 5)",
     "C15": "rules not built yet",
-    "C19": "rules not built yet",
 }
